@@ -12,7 +12,7 @@ text = (tmpl.replace("{WT}", wt).replace("{ID}", pid).replace("{TITLE}", p['titl
         .replace("{STATEMENT}", p['statement']).replace("{QUANT}", p['quantifier']['text']).replace("{N}", n))
 import glob, os
 tried = []
-for m in sorted(glob.glob(f"/verif/seeded/{pid}-*/notes.md")):
+for m in sorted(glob.glob(f"/verif/seeded/{pid}*/notes.md")):
     first = " ".join(open(m).read().split())[:260]
     tried.append("  - " + first)
 if tried:
